@@ -119,17 +119,21 @@ var structFields = map[string][]struct{ name, kind string }{
 	"pub":   {{"x", "field"}, {"y", "field"}},
 	"priv":  {{"Key", "scalar"}},
 	"naf":   {{"pos", "bytes"}, {"neg", "bytes"}, {"start", "int"}, {"end", "int"}},
+	"epub": {{"Curve", "curve"}, {"X", "big"}, {"Y", "big"}},
+	"ext": {{"Version", "bytes"}, {"Depth", "int"}, {"Fingerprint", "bytes"}, {"ChildNumber", "int"}, {"KeyData", "bytes"}, {"ChainCode", "bytes"},
+		{"curve", "curve"}},
 }
 
 var leanType = map[string]string{"scalar": "Nat", "field": "Nat", "int": "Nat", "point": "Jac", "sig": "Nat × Nat × Nat", "ssig": "Nat × Nat",
 	"pub": "Nat × Nat", "priv": "Nat", "bytes": "Bytes", "bool": "Bool", "hmac": "HmacObj", "reader": "Reader",
-	"naf": "Bytes × Bytes × Nat × Nat"}
+	"naf": "Bytes × Bytes × Nat × Nat", "big": "Nat", "curve": "Unit",
+	"ext": "Bytes × Nat × Bytes × Nat × Bytes × Bytes × Unit", "epub": "Unit × Nat × Nat"}
 
 // valueArgs: a bytes-valued argument is parenthesised when it is not atomic
 
 var zeroOf = map[string]string{"scalar": "0", "field": "0", "int": "0", "point": "((0, 0, 0) : Jac)", "sig": "((0, 0, 0) : Nat × Nat × Nat)",
 	"ssig": "((0, 0) : Nat × Nat)", "pub": "((0, 0) : Nat × Nat)", "priv": "0", "bool": "false",
-	"naf": "((List.replicate 33 (0 : UInt8), List.replicate 33 (0 : UInt8), 0, 0) : Bytes × Bytes × Nat × Nat)"}
+	"naf": "((List.replicate 33 (0 : UInt8), List.replicate 33 (0 : UInt8), 0, 0) : Bytes × Bytes × Nat × Nat)", "big": "0"}
 
 func proj(term string, i, n int) string {
 	if n == 1 {
@@ -197,32 +201,53 @@ type d8entry struct {
 	errT   string // Lean error type of a fallible entry
 	extra  string // extra leading Lean parameters, e.g. "(B : Bytes → Bytes)"
 	extraA string // … and how to pass them on in calls
+	out    string // name of a *JacobianPoint out-parameter: the entry returns its final value
 	fuel   string // fuel given to the entry's retry loop (a Lean term over its parameters); "" = no loop
 }
 
 var d8entries = []d8entry{
-	{"", "fieldToModNScalar", "fieldToModNScalar", true, "", "", "", ""},
-	{"", "modNScalarToField", "modNScalarToField", true, "", "", "", ""},
-	{"", "ScalarBaseMultNonConst", "scalarBaseMultNonConst", true, "", "", "", ""},
-	{"", "sign", "sign", false, "Unit", "", "", ""},
-	{"", "signRFC6979", "signRFC6979", false, "Unit", "", "", "16"},
-	{"", "Signature.Verify", "verify", true, "", "", "", ""},
-	{"", "Signature.RecoverPublicKey", "recoverPublicKey", false, "SigErr", "", "", ""},
-	{"", "GenerateSharedSecret", "generateSharedSecret", true, "", "", "", ""},
-	{"schnorr", "schnorrSign", "schnorrSign", false, "SchnorrErr", "(B : Bytes → Bytes)", "B", ""},
-	{"schnorr", "schnorrVerify", "schnorrVerify", false, "SchnorrErr", "(B : Bytes → Bytes)", "B", ""},
-	{"schnorr", "Sign", "schnorrSignRFC6979", false, "SchnorrErr", "(B : Bytes → Bytes)", "B", "16"},
+	{"", "fieldToModNScalar", "fieldToModNScalar", true, "", "", "", "", ""},
+	{"", "modNScalarToField", "modNScalarToField", true, "", "", "", "", ""},
+	{"", "ScalarBaseMultNonConst", "scalarBaseMultNonConst", true, "", "", "", "result", ""},
+	{"", "sign", "sign", false, "Unit", "", "", "", ""},
+	{"", "signRFC6979", "signRFC6979", false, "Unit", "", "", "", "16"},
+	{"", "Signature.Verify", "verify", true, "", "", "", "", ""},
+	{"", "Signature.RecoverPublicKey", "recoverPublicKey", false, "SigErr", "", "", "", ""},
+	{"", "GenerateSharedSecret", "generateSharedSecret", true, "", "", "", "", ""},
+	{"schnorr", "schnorrSign", "schnorrSign", false, "SchnorrErr", "(B : Bytes → Bytes)", "B", "", ""},
+	{"schnorr", "schnorrVerify", "schnorrVerify", false, "SchnorrErr", "(B : Bytes → Bytes)", "B", "", ""},
+	{"schnorr", "Sign", "schnorrSignRFC6979", false, "SchnorrErr", "(B : Bytes → Bytes)", "B", "", "16"},
 	// second tranche
-	{"", "NonceRFC6979", "nonceRFC6979", false, "Unit", "", "", "256"},
-	{"", "generatePrivateKey", "generatePrivateKey", false, "IoErr", "", "", "rand.data.length / 32 + 1"},
-	{"", "PrivKeyFromBytes", "privKeyFromBytes", true, "", "", "", ""},
-	{"", "PrivateKey.PubKey", "pubKey", true, "", "", "", ""},
-	{"", "Signature.ExportCompact", "exportCompact", true, "", "", "", ""},
-	{"", "SignCompact", "signCompact", false, "Unit", "", "", ""},
+	{"", "NonceRFC6979", "nonceRFC6979", false, "Unit", "", "", "", "256"},
+	{"", "generatePrivateKey", "generatePrivateKey", false, "IoErr", "", "", "", "rand.data.length / 32 + 1"},
+	{"", "PrivKeyFromBytes", "privKeyFromBytes", true, "", "", "", "", ""},
+	{"", "PrivateKey.PubKey", "pubKey", true, "", "", "", "", ""},
+	{"", "Signature.ExportCompact", "exportCompact", true, "", "", "", "", ""},
+	{"", "SignCompact", "signCompact", false, "Unit", "", "", "", ""},
 	// third tranche: the endomorphism split, NAF recoding and the interleaved double-and-add loop
-	{"", "splitK", "splitKGen", true, "", "", "", ""},
-	{"", "naf", "nafGen", true, "", "", "", ""},
-	{"", "ScalarMultNonConst", "scalarMultNonConst", true, "", "", "", ""},
+	{"", "splitK", "splitKGen", true, "", "", "", "", ""},
+	{"", "naf", "nafGen", true, "", "", "", "", ""},
+	{"", "ScalarMultNonConst", "scalarMultNonConst", true, "", "", "", "result", ""},
+	// fourth tranche: the crypto/elliptic adaptor over big.Int
+	{"", "bigAffineToJacobian", "bigAffineToJacobian", true, "", "", "", "result", ""},
+	{"", "jacobianToBigAffine", "jacobianToBigAffine", true, "", "", "", "", ""},
+	{"", "moduloReduce", "moduloReduce", true, "", "", "", "", ""},
+	{"", "KoblitzCurve.IsOnCurve", "adaptorIsOnCurveGen", true, "", "", "", "", ""},
+	{"", "KoblitzCurve.Add", "adaptorAddGen", true, "", "", "", "", ""},
+	{"", "KoblitzCurve.Double", "adaptorDoubleGen", true, "", "", "", "", ""},
+	{"", "KoblitzCurve.ScalarMult", "adaptorScalarMultGen", true, "", "", "", "", ""},
+	{"", "KoblitzCurve.ScalarBaseMult", "adaptorScalarBaseMultGen", true, "", "", "", "", ""},
+	{"", "PublicKey.X", "pubKeyX", true, "", "", "", "", ""},
+	{"", "PublicKey.Y", "pubKeyY", true, "", "", "", "", ""},
+	// fifth tranche: extended keys
+	{"ecckd", "KeyVersion.IsPrivate", "versionIsPrivateGen", true, "", "", "", "", ""},
+	{"ecckd", "KeyVersion.ToPublic", "versionToPublicGen", true, "", "", "", "", ""},
+	{"ecckd", "ExtendedKey.UnmarshalBinary", "unmarshalBinary", false, "BipErr", "", "", "k", ""},
+	// sixth tranche: child key derivation
+	{"ecckd", "isEven", "isEvenGen", true, "", "", "", "", ""},
+	{"ecckd", "serializeCompressedEcdsa", "serializeCompressedEcdsa", true, "", "", "", "", ""},
+	{"ecckd", "ExtendedKey.pubKeyBytes", "pubKeyBytes", true, "", "", "", "", ""},
+	{"ecckd", "ExtendedKey.ChildWithIL", "childWithILGen", false, "BipErr", "(O : Oracles)", "O", "", ""},
 }
 
 type d8 struct {
@@ -322,12 +347,23 @@ func (d *d8) kindOf(t types.Type) (string, int) {
 		return "field", 0
 	case "JacobianPoint":
 		return "point", 0
-	case "PublicKey":
-		return "pub", 0
 	case "PrivateKey":
 		return "priv", 0
 	case "nafScalar":
 		return "naf", 0
+	case "ExtendedKey":
+		return "ext", 0
+	case "PublicKey":
+		if pk == "ecdsa" {
+			return "epub", 0
+		}
+		return "pub", 0
+	case "Curve", "KoblitzCurve":
+		return "curve", 0
+	case "Int":
+		if pk == "big" {
+			return "big", 0 // math/big.Int: a natural (negative values are outside the model: C15's domain)
+		}
 	case "Signature":
 		if pk == "schnorr" {
 			return "ssig", 0
@@ -413,6 +449,13 @@ func (d *d8) lvalue(e ast.Expr, pre *[]*dnode) *dloc {
 		if nm := d.pkgBytes(x); nm != "" {
 			return &dloc{root: nm, kind: "bytes"}
 		}
+		if o, ok := d.obj(x).(*types.Var); ok && o.Pkg() != nil && o.Parent() == o.Pkg().Scope() {
+			if k, _ := d.kindOf(o.Type()); k == "big" {
+				if c := d.pkgBigConst(x.Name, o); c != "" {
+					return &dloc{root: c, kind: "big", ro: true}
+				}
+			}
+		}
 		// the endomorphism constants (regenerated by pass T3 into Gen/Consts, wrapped by Model/ScalarMult)
 		switch x.Name {
 		case "endoZ1", "endoZ2", "endoNegB1", "endoNegB2", "endoNegLambda":
@@ -431,6 +474,30 @@ func (d *d8) lvalue(e ast.Expr, pre *[]*dnode) *dloc {
 			return d.lvalue(x.X, pre)
 		}
 	case *ast.SelectorExpr:
+		if call, ok := x.X.(*ast.CallExpr); ok && (x.Sel.Name == "N" || x.Sel.Name == "P") {
+			// secp256k1.S256().N, curve.Params().N : the group order / field prime (pass T3 checks the literals)
+			name := ""
+			switch f := call.Fun.(type) {
+			case *ast.SelectorExpr:
+				name = f.Sel.Name
+			case *ast.Ident:
+				name = f.Name
+			}
+			if name == "S256" || name == "Params" {
+				return &dloc{root: x.Sel.Name, kind: "big", ro: true}
+			}
+		}
+		if id, ok := x.X.(*ast.Ident); ok && id.Name == "curveParams" {
+			// the curve parameters (checked against the Lean constants by pass T3)
+			switch x.Sel.Name {
+			case "N":
+				return &dloc{root: "N", kind: "big", ro: true}
+			case "P":
+				return &dloc{root: "P", kind: "big", ro: true}
+			case "ByteSize":
+				return &dloc{root: "32", kind: "int", ro: true}
+			}
+		}
 		base := d.lvalue(x.X, pre)
 		if base == nil {
 			return nil
@@ -443,6 +510,14 @@ func (d *d8) lvalue(e ast.Expr, pre *[]*dnode) *dloc {
 			if f.name == x.Sel.Name {
 				return &dloc{root: base.root, path: append(append([]int{}, base.path...), i, len(fs)), kind: f.kind}
 			}
+		}
+	case *ast.CompositeLit:
+		v := d.composite(x, pre)
+		if leanType[v.kind] != "" {
+			nm := d.tmp("lit")
+			*pre = append(*pre, &dnode{kind: "let", name: nm, term: v.term})
+			d.declare(nm, v.kind)
+			return &dloc{root: nm, kind: v.kind}
 		}
 	case *ast.IndexExpr:
 		if v := d.expr(x, pre); v.loc != nil {
@@ -546,6 +621,39 @@ func (d *d8) pkgBytes(id *ast.Ident) string {
 										d.pv[name] = "List.replicate " + tv.Value.ExactString() + " " + es[0]
 										return name
 									}
+								}
+							}
+						}
+					}
+				}
+			}
+		}
+	}
+	return ""
+}
+
+// pkgBigConst: a package-level `var x = big.NewInt(c)` → c
+func (d *d8) pkgBigConst(name string, o *types.Var) string {
+	for _, p := range d.pkgs {
+		if p.pkg.Path() != o.Pkg().Path() {
+			continue
+		}
+		for _, f := range p.files {
+			for _, dcl := range f.Decls {
+				gd, ok := dcl.(*ast.GenDecl)
+				if !ok || gd.Tok != token.VAR {
+					continue
+				}
+				for _, sp := range gd.Specs {
+					vs := sp.(*ast.ValueSpec)
+					for i, nm := range vs.Names {
+						if nm.Name != name || i >= len(vs.Values) {
+							continue
+						}
+						if call, ok := vs.Values[i].(*ast.CallExpr); ok && len(call.Args) == 1 {
+							if sel, ok := call.Fun.(*ast.SelectorExpr); ok && sel.Sel.Name == "NewInt" {
+								if tv, ok := p.info.Types[call.Args[0]]; ok && tv.Value != nil {
+									return tv.Value.ExactString()
 								}
 							}
 						}
@@ -726,11 +834,39 @@ func (d *d8) expr(e ast.Expr, pre *[]*dnode) *dv {
 func (d *d8) composite(cl *ast.CompositeLit, pre *[]*dnode) *dv {
 	k, _ := d.kindOf(d.p.info.Types[cl].Type)
 	fs, ok := structFields[k]
-	if !ok || len(cl.Elts) != len(fs) {
+	keyed := len(cl.Elts) > 0
+	for _, el := range cl.Elts {
+		if _, isKV := el.(*ast.KeyValueExpr); !isKV {
+			keyed = false
+		}
+	}
+	if !ok || (!keyed && len(cl.Elts) != len(fs)) {
 		d.fail(cl, "composite literal of kind %q", k)
 		return &dv{kind: "int", term: "0"}
 	}
 	parts := make([]string, len(fs))
+	if keyed { // fields not mentioned get their zero value
+		st, _ := d.p.info.Types[cl].Type.Underlying().(*types.Struct)
+		for j, f := range fs {
+			switch f.kind {
+			case "bytes":
+				parts[j] = "([] : Bytes)"
+				if st != nil {
+					for q := 0; q < st.NumFields(); q++ {
+						if st.Field(q).Name() == f.name {
+							if arr, isArr := st.Field(q).Type().Underlying().(*types.Array); isArr {
+								parts[j] = fmt.Sprintf("(List.replicate %d (0 : UInt8))", arr.Len())
+							}
+						}
+					}
+				}
+			case "curve":
+				parts[j] = "()"
+			default:
+				parts[j] = zeroOf[f.kind]
+			}
+		}
+	}
 	for i, el := range cl.Elts {
 		if kv, ok := el.(*ast.KeyValueExpr); ok {
 			el = kv.Value
@@ -764,6 +900,9 @@ func (d *d8) binary(x *ast.BinaryExpr, pre *[]*dnode) *dv {
 		op := map[token.Token]string{token.LAND: "&&", token.LOR: "||"}[x.Op]
 		return &dv{kind: "bool", term: "(" + l.term + " " + op + " " + r.term + ")"}
 	case token.EQL, token.NEQ:
+		if t := d.cmpPattern(x, pre); t != "" {
+			return &dv{kind: "bool", term: t}
+		}
 		l, r := d.expr(x.X, pre), d.expr(x.Y, pre)
 		if l.kind == "err" || r.kind == "err" || l.kind == "nil" || r.kind == "nil" {
 			e := l
@@ -786,6 +925,9 @@ func (d *d8) binary(x *ast.BinaryExpr, pre *[]*dnode) *dv {
 		}
 		return &dv{kind: "bool", term: "(" + l.term + " " + op + " " + r.term + ")"}
 	case token.LSS, token.LEQ, token.GTR, token.GEQ:
+		if t := d.cmpPattern(x, pre); t != "" {
+			return &dv{kind: "bool", term: t}
+		}
 		l, r := d.intTerm(x.X, pre), d.intTerm(x.Y, pre)
 		op := map[token.Token]string{token.LSS: "<", token.LEQ: "≤", token.GTR: ">", token.GEQ: "≥"}[x.Op]
 		return &dv{kind: "bool", term: "decide (" + l + " " + op + " " + r + ")"}
@@ -820,6 +962,33 @@ func (d *d8) binary(x *ast.BinaryExpr, pre *[]*dnode) *dv {
 	}
 	d.fail(x, "binary operator %s outside the T8 subset", x.Op)
 	return &dv{kind: "int", term: "0"}
+}
+
+// cmpPattern: `a.Cmp(b) <op> 0` on math/big integers → the comparison itself
+func (d *d8) cmpPattern(x *ast.BinaryExpr, pre *[]*dnode) string {
+	call, ok := x.X.(*ast.CallExpr)
+	if !ok || len(call.Args) != 1 {
+		return ""
+	}
+	sel, ok := call.Fun.(*ast.SelectorExpr)
+	if !ok || sel.Sel.Name != "Cmp" {
+		return ""
+	}
+	if k, _ := d.kindOf(d.p.info.Types[sel.X].Type); k != "big" {
+		return ""
+	}
+	if c, ok := d.constVal(x.Y); !ok || c != "0" {
+		return ""
+	}
+	a, b := d.expr(sel.X, pre).term, d.expr(call.Args[0], pre).term
+	switch x.Op {
+	case token.EQL:
+		return "(" + a + " == " + b + ")"
+	case token.NEQ:
+		return "(" + a + " != " + b + ")"
+	}
+	op := map[token.Token]string{token.LSS: "<", token.LEQ: "≤", token.GTR: ">", token.GEQ: "≥"}[x.Op]
+	return "decide (" + a + " " + op + " " + b + ")"
 }
 
 // ---------------------------------------------------------------- calls
@@ -906,6 +1075,57 @@ func (d *d8) call(x *ast.CallExpr, pre *[]*dnode) *dv {
 			return &dv{kind: "int", term: n}
 		case "panic":
 			return &dv{kind: "panic"}
+		case "new":
+			l := d.lvalue(x, pre)
+			return &dv{kind: l.kind, term: l.read(), loc: l}
+		case "make":
+			if k, _ := d.kindOf(d.p.info.Types[x].Type); k == "bytes" && len(x.Args) >= 2 {
+				return &dv{kind: "bytes", term: "(List.replicate (" + d.intTerm(x.Args[1], pre) + ") (0 : UInt8))"}
+			}
+		case "append":
+			// value semantics: the result is the concatenation (sharing of a backing array is not modelled: see DESIGN)
+			if len(x.Args) == 2 {
+				var a *dv
+				if conv, ok := x.Args[0].(*ast.CallExpr); ok && len(conv.Args) == 1 {
+					if nl, ok := conv.Args[0].(*ast.Ident); ok && nl.Name == "nil" {
+						a = &dv{kind: "bytes", term: "([] : Bytes)"}
+					}
+				}
+				if a == nil {
+					a = d.expr(x.Args[0], pre)
+				}
+				b := d.expr(x.Args[1], pre)
+				if a.kind == "bytes" && x.Ellipsis.IsValid() && b.kind == "bytes" {
+					if a.term == "([] : Bytes)" {
+						return &dv{kind: "bytes", term: b.term}
+					}
+					return &dv{kind: "bytes", term: "(" + a.term + " ++ " + b.term + ")"}
+				}
+				if a.kind == "bytes" && !x.Ellipsis.IsValid() && b.kind == "int" && b.width == 8 {
+					return &dv{kind: "bytes", term: "(" + a.term + " ++ [UInt8.ofNat " + b.term + "])"}
+				}
+			}
+		}
+	}
+	if sel, ok := x.Fun.(*ast.SelectorExpr); ok {
+		if pk, ok := sel.X.(*ast.Ident); ok {
+			if _, isPkg := d.p.info.Uses[pk].(*types.PkgName); isPkg {
+				switch pk.Name + "." + sel.Sel.Name {
+				case "bytes.Equal":
+					return &dv{kind: "bool", term: "(" + d.expr(x.Args[0], pre).term + " == " + d.expr(x.Args[1], pre).term + ")"}
+				case "secp256k1.S256":
+					return &dv{kind: "curve", term: "()"}
+				}
+			}
+		}
+		if inner, ok := sel.X.(*ast.SelectorExpr); ok && sel.Sel.Name == "PutUint32" && inner.Sel.Name == "BigEndian" {
+			dst := d.lvalue(x.Args[0], pre)
+			d.writeBytesAt(dst, "beBytes 4 "+d.intTerm(x.Args[1], pre), "4", pre)
+			return &dv{kind: "unit"}
+		}
+		// binary.BigEndian.Uint32(b)
+		if inner, ok := sel.X.(*ast.SelectorExpr); ok && sel.Sel.Name == "Uint32" && inner.Sel.Name == "BigEndian" {
+			return &dv{kind: "int", term: "beNat (" + d.expr(x.Args[0], pre).term + ".take 4)", width: 32}
 		}
 	}
 	if id, ok := x.Fun.(*ast.Ident); ok && id.Name == "s256BytePoints" && len(x.Args) == 0 {
@@ -927,7 +1147,7 @@ func (d *d8) call(x *ast.CallExpr, pre *[]*dnode) *dv {
 	arg := func(i int) *dv { return d.expr(x.Args[i], pre) }
 	argLoc := func(i int) *dloc { return d.lvalue(x.Args[i], pre) }
 	var recv *dloc
-	if recvX != nil && (rk == "scalar" || rk == "field" || rk == "point" || rk == "hmac" || rk == "naf") {
+	if recvX != nil && (rk == "scalar" || rk == "field" || rk == "point" || rk == "hmac" || rk == "naf" || rk == "big") {
 		recv = d.lvalue(recvX, pre)
 	}
 	set := func(l *dloc, v string) *dv {
@@ -1028,9 +1248,10 @@ func (d *d8) call(x *ast.CallExpr, pre *[]*dnode) *dv {
 	case "DoubleNonConst":
 		a, r := argLoc(0), argLoc(1)
 		if a.root != r.root {
-			d.fail(x, "DoubleNonConst with a distinct result is not in the model vocabulary")
+			set(r, "dblNC3 "+a.read())
+		} else {
+			set(r, "dblNC "+a.read())
 		}
-		set(r, "dblNC "+a.read())
 		return &dv{kind: "unit"}
 	case "isOnCurve":
 		return &dv{kind: "bool", term: "(isOnCurveM " + arg(0).term + " " + arg(1).term + ")"}
@@ -1057,6 +1278,39 @@ func (d *d8) call(x *ast.CallExpr, pre *[]*dnode) *dv {
 		d.declare(t, "bytes")
 		d.wrote(recv.root)
 		return &dv{kind: "bytes", term: t}
+	// ---- math/big (naturals)
+	case "Int.Sign":
+		return &dv{kind: "int", term: "(if " + recv.read() + " == 0 then 0 else 1)"}
+	case "Int.Bytes":
+		return &dv{kind: "bytes", term: "(minBytes " + recv.read() + ")"}
+	case "Int.SetBytes":
+		return set(recv, "beNat "+bytesArg(0))
+	case "Int.Mod":
+		return set(recv, arg(0).term+" % "+arg(1).term)
+	case "FieldVal.SetByteSlice":
+		b := bytesArg(0)
+		set(recv, "beNat ("+b+".take 32)")
+		return &dv{kind: "bool", term: "decide (beNat (" + b + ".take 32) ≥ P)"}
+	case "rmd160sha256":
+		return &dv{kind: "bytes", term: "(O.hash160 " + bytesArg(0) + ")"}
+	case "Int.Add":
+		return set(recv, arg(0).term+" + "+arg(1).term)
+	case "Int.And":
+		return set(recv, arg(0).term+" &&& "+arg(1).term)
+	case "Int.FillBytes":
+		dst := argLoc(0)
+		n := "(" + dst.read() + ".length)"
+		d.writeBytesAt(dst, "beBytes "+n+" "+recv.read(), n, pre)
+		return &dv{kind: "unit"}
+	case "PublicKey.SerializeCompressed":
+		pk := d.expr(recvX, pre)
+		return &dv{kind: "bytes", term: "(serializeCompressed " + pk.term + ".1 " + pk.term + ".2)"}
+	case "doubleSha256":
+		return &dv{kind: "bytes", term: "(doubleSha256 " + bytesArg(0) + ")"}
+	case "KeyVersion.IsPrivate":
+		return &dv{kind: "bool", term: "(versionIsPrivate " + d.expr(recvX, pre).term + ")"}
+	case "KeyVersion.ToPublic":
+		return &dv{kind: "bytes", term: "(versionToPublic " + d.expr(recvX, pre).term + ")"}
 	case "mul512Rsh320Round":
 		return &dv{kind: "scalar", term: "(mul512Rsh320Round " + arg(0).term + " " + arg(1).term + ")"}
 	case "FieldVal.Negate":
@@ -1073,15 +1327,21 @@ func (d *d8) call(x *ast.CallExpr, pre *[]*dnode) *dv {
 	case "Sprintf":
 		return &dv{kind: "unit"}
 	}
+	if rk == "curve" {
+		switch fn.Name() {
+		case "ScalarBaseMult", "ScalarMult", "Add", "Double", "IsOnCurve":
+			name = "KoblitzCurve." + fn.Name() // elliptic.Curve is only ever secp256k1.S256() here (the curve field is set from it)
+		}
+	}
 	// another translated entry
 	for i := range d8entries {
 		ent := &d8entries[i]
-		if ent.key == name && ((fn.Pkg().Name() == "schnorr") == (ent.pkg == "schnorr")) && ent.key != d.ent.key {
+		if ent.key == name && (fn.Pkg().Name() == ent.pkg || (ent.pkg == "" && (fn.Pkg().Name() == "secp256k1" || rk == "curve"))) && !(ent.key == d.ent.key && ent.pkg == d.ent.pkg) {
 			var args []string
 			if ent.extraA != "" {
 				args = append(args, ent.extraA)
 			}
-			if recvX != nil {
+			if recvX != nil && rk != "curve" {
 				args = append(args, d.expr(recvX, pre).term)
 			}
 			var outLocs []*dloc
@@ -1089,8 +1349,10 @@ func (d *d8) call(x *ast.CallExpr, pre *[]*dnode) *dv {
 				pt := sig.Params().At(i).Type()
 				k, _ := d.kindOf(pt)
 				_, isPtr := pt.(*types.Pointer)
-				if isPtr && k == "point" && ent.key == "ScalarBaseMultNonConst" {
-					outLocs = append(outLocs, argLoc(i))
+				if isPtr && k == "point" && ent.out != "" && sig.Params().At(i).Name() == ent.out {
+					l := argLoc(i)
+					outLocs = append(outLocs, l)
+					args = append(args, "("+l.read()+")") // the out-parameter's current value goes in, its final value comes back
 					continue
 				}
 				args = append(args, "("+arg(i).term+")")
@@ -1288,6 +1550,10 @@ func (d *d8) simple(s ast.Stmt, pre *[]*dnode) bool {
 					}
 					return false
 				}
+				if k, _ := d.kindOf(d.p.info.Types[st.Lhs[0]].Type); k == "curve" && !isId {
+					d.write(d.lvalue(st.Lhs[0], pre), "()", pre) // the curve object carries no data
+					return false
+				}
 				if isPtr {
 					return true // re-pointing a pointer variable
 				}
@@ -1300,6 +1566,16 @@ func (d *d8) simple(s ast.Stmt, pre *[]*dnode) bool {
 					fmt.Sscan(c, &ci)
 					if base.kind == "bytes" && base.lo == "" && !isConst && isArr {
 						// b[i] = v with a computed index: List.set (an index outside the array would panic in Go; not modelled)
+						i := d.intTerm(ix.Index, pre)
+						v := d.expr(st.Rhs[0], pre)
+						if v.kind != "int" || v.width != 8 {
+							return true
+						}
+						d.write(base, "("+base.read()+".set "+i+" (UInt8.ofNat "+v.term+"))", pre)
+						return false
+					}
+					if base.kind == "bytes" && base.lo == "" && !isArr {
+						// b[i] = v on a slice: List.set (an index outside the slice would panic in Go; not modelled)
 						i := d.intTerm(ix.Index, pre)
 						v := d.expr(st.Rhs[0], pre)
 						if v.kind != "int" || v.width != 8 {
@@ -1575,6 +1851,16 @@ func (d *d8) condFacts(c ast.Expr) []string {
 			out = append(out, l+"≥1")
 		}
 		return out
+	case token.LSS, token.LEQ:
+		kx, _ := d.kindOf(d.p.info.Types[b.X].Type)
+		if kx != "int" {
+			return nil
+		}
+		l, r := d.intTerm(b.X, &pre), d.intTerm(b.Y, &pre)
+		if len(pre) > 0 {
+			return nil
+		}
+		return []string{r + "≥" + l}
 	case token.LAND:
 		return append(d.condFacts(b.X), d.condFacts(b.Y)...)
 	}
@@ -1608,6 +1894,9 @@ func (d *d8) retNode(st *ast.ReturnStmt, pre *[]*dnode) *dnode {
 	case lastK == "err":
 		last := res[n-1]
 		if id, ok := last.(*ast.Ident); ok && id.Name == "nil" {
+			if n == 1 && d.ent.out != "" {
+				return d.rt(".ok " + d.ent.out) // the receiver / out-parameter as left by the function
+			}
 			return d.rt(".ok " + val(res[:n-1]))
 		}
 		if call, ok := last.(*ast.CallExpr); ok {
@@ -1618,6 +1907,10 @@ func (d *d8) retNode(st *ast.ReturnStmt, pre *[]*dnode) *dnode {
 		if id, ok := last.(*ast.Ident); ok {
 			if t, ok := d.errTerm[d.obj(id)]; ok {
 				return d.rt(".err " + t)
+			}
+			// a package-level sentinel error value (`var ErrX = errors.New(…)`)
+			if o, ok := d.obj(id).(*types.Var); ok && o.Pkg() != nil && o.Parent() == o.Pkg().Scope() && strings.HasPrefix(id.Name, "Err") {
+				return d.rt(".err ." + id.Name)
 			}
 		}
 		d.fail(st, "error result outside the T8 subset")
@@ -1666,6 +1959,36 @@ func (d *d8) stmts(list []ast.Stmt, k func() *dnode) *dnode {
 		return d.ifStmt(st, next)
 	case *ast.ForStmt:
 		return d.forStmt(st, next)
+	case *ast.SwitchStmt:
+		// switch tag { case a, b: … } without fallthrough → an if / else-if chain on equality with the tag
+		if st.Init != nil || st.Tag == nil {
+			d.fail(st, "switch form")
+			break
+		}
+		tag := d.expr(st.Tag, &pre)
+		var build func(i int) *dnode
+		build = func(i int) *dnode {
+			if i == len(st.Body.List) {
+				return next()
+			}
+			cc := st.Body.List[i].(*ast.CaseClause)
+			if cc.List == nil { // default: must be last
+				if i != len(st.Body.List)-1 {
+					d.fail(cc, "default clause that is not last")
+				}
+				return d.branch(cc.Body, next)
+			}
+			var conds []string
+			var p2 []*dnode
+			for _, e := range cc.List {
+				conds = append(conds, "("+tag.term+" == "+d.expr(e, &p2).term+")")
+			}
+			if len(p2) > 0 {
+				d.fail(cc, "effects in a case expression")
+			}
+			return &dnode{kind: "if", term: strings.Join(conds, " || "), a: d.branch(cc.Body, next), b: build(i + 1)}
+		}
+		return chain(pre, build(0))
 	case *ast.ExprStmt:
 		if call, ok := st.X.(*ast.CallExpr); ok {
 			if id, ok := call.Fun.(*ast.Ident); ok && id.Name == "panic" {
@@ -1727,6 +2050,69 @@ func (d *d8) fallibleAssign(st *ast.AssignStmt, next func() *dnode) *dnode {
 		body := next()
 		return chain(pre, &dnode{kind: "match", term: "nonceM 256 " + strings.Join(a, " "),
 			arms: []darm{{"none", d.rt(".fuel")}, {"some " + name, body}}})
+	}
+	if fn.Name() == "hmacCKD" && len(st.Lhs) == 3 && d.ent.errT == "BipErr" {
+		// key, chainCode, err := hmacCKD(seed, salt): HMAC-SHA512 is an oracle parameter of the models (`Oracles`);
+		// the model's hmacCKD returns the two halves and whether the key half is a valid scalar
+		seed, salt := d.expr(call.Args[0], &pre), d.expr(call.Args[1], &pre)
+		var names []string
+		for i := 0; i < 2; i++ {
+			id := st.Lhs[i].(*ast.Ident)
+			n := d.fresh(id.Name)
+			names = append(names, n)
+			d.declare(n, "bytes")
+			d.env[d.p.info.Defs[id]] = &dloc{root: n, kind: "bytes"}
+		}
+		okv := d.tmp("ckdOk")
+		d.declare(okv, "bool")
+		errId := st.Lhs[2].(*ast.Ident)
+		eo := d.p.info.Defs[errId]
+		if eo == nil {
+			eo = d.p.info.Uses[errId]
+		}
+		e0, kn0, sc0, st0 := d.snapshot()
+		d.env[eo] = &dloc{root: "?err", kind: "err"}
+		d.known[eo] = true
+		d.errTerm[eo] = ".ErrShaKeyInvalid"
+		bad := next()
+		d.restore(e0, kn0, sc0, st0)
+		delete(d.errTerm, eo)
+		e1, kn1, sc1, st1 := d.snapshot()
+		d.env[eo] = &dloc{root: "?err", kind: "err"}
+		d.known[eo] = false
+		good := next()
+		d.restore(e1, kn1, sc1, st1)
+		pre = append(pre, &dnode{kind: "let", name: "(" + names[0] + ", " + names[1] + ", " + okv + ")", term: "hmacCKD O " + seed.term + " " + salt.term})
+		return chain(pre, &dnode{kind: "if", term: "(!" + okv + ")", a: bad, b: good})
+	}
+	if fn.Name() == "ParsePubKey" && fn.Pkg().Name() == "secp256k1" && len(st.Lhs) == 2 && d.ent.errT == "BipErr" {
+		// key, err := secp256k1.ParsePubKey(b): the model's parser (= the regenerated one: C08 parsePubKey_regenerated)
+		b := d.expr(call.Args[0], &pre)
+		keyId, errId := st.Lhs[0].(*ast.Ident), st.Lhs[1].(*ast.Ident)
+		eo := d.p.info.Defs[errId]
+		if eo == nil {
+			eo = d.p.info.Uses[errId]
+		}
+		e0, kn0, sc0, st0 := d.snapshot()
+		d.env[eo] = &dloc{root: "?err", kind: "err"}
+		d.known[eo] = true
+		d.errTerm[eo] = "(.Pub pe)"
+		bad := next()
+		d.restore(e0, kn0, sc0, st0)
+		delete(d.errTerm, eo)
+		e1, kn1, sc1, st1 := d.snapshot()
+		d.env[eo] = &dloc{root: "?err", kind: "err"}
+		d.known[eo] = false
+		pat := "_"
+		if keyId.Name != "_" {
+			pat = d.fresh(keyId.Name)
+			d.declare(pat, "pub")
+			d.env[d.p.info.Defs[keyId]] = &dloc{root: pat, kind: "pub"}
+		}
+		good := next()
+		d.restore(e1, kn1, sc1, st1)
+		return chain(pre, &dnode{kind: "match", term: "parsePubKey " + b.term, arms: []darm{
+			{".panic", d.rt(".panic")}, {".err pe", bad}, {".ok " + pat, good}}})
 	}
 	v := d.expr(call, &pre)
 	if v.kind != "entry" || d8entries[v.width].total {
@@ -2274,6 +2660,9 @@ func (d *d8) retType() string {
 	if n > 0 && (kinds[n-1] == "err" || (kinds[n-1] == "bool" && n == 2)) {
 		kinds = kinds[:n-1]
 	}
+	if len(kinds) == 0 && d.ent.out != "" {
+		return "DR " + d.ent.errT + " (" + d.stype[d.ent.out] + ")"
+	}
 	if d.reader != "" {
 		return "DR " + d.ent.errT + " (" + tup(kinds) + ") × Reader"
 	}
@@ -2285,16 +2674,24 @@ func (d *d8) retType() string {
 func passDrivers(pkgs []*Pkg) (string, []string) {
 	var errs []string
 	var sb strings.Builder
-	sb.WriteString("import Secp.Model.Schnorr\nimport Secp.Model.Ecdsa\nimport Secp.Model.PrivKey\nimport Secp.Model.DriverRt\n/- GENERATED by tools/gotr (pass T8) from /repo — do not edit. -/\nset_option linter.unusedVariables false\nnamespace Secp.Gen.Drivers\nopen Secp.Spec Secp.Model\n\n")
+	sb.WriteString("import Secp.Model.Schnorr\nimport Secp.Model.Ecdsa\nimport Secp.Model.PrivKey\nimport Secp.Model.Adaptor\nimport Secp.Model.DriverRt\n/- GENERATED by tools/gotr (pass T8) from /repo — do not edit. -/\nset_option linter.unusedVariables false\nnamespace Secp.Gen.Drivers\nopen Secp.Spec Secp.Model\n\n")
 	pv := map[string]string{}
 	var body strings.Builder
 	for i := range d8entries {
 		ent := &d8entries[i]
 		var p *Pkg
+		want := ent.pkg
+		if want == "" {
+			want = "secp256k1"
+		}
 		for _, q := range pkgs {
-			if (q.pkg.Name() == "schnorr") == (ent.pkg == "schnorr") && q.pkg.Name() != "ecckd" {
+			if q.pkg.Name() == want {
 				p = q
 			}
+		}
+		if p == nil {
+			errs = append(errs, "drivers: package "+want+" not loaded")
+			continue
 		}
 		fd := p.funcs[ent.key]
 		if fd == nil || fd.Body == nil {
@@ -2313,7 +2710,7 @@ func passDrivers(pkgs []*Pkg) (string, []string) {
 				return
 			}
 			_, isPtr := o.Type().(*types.Pointer)
-			if (ent.key == "ScalarBaseMultNonConst" || ent.key == "ScalarMultNonConst") && k == "point" && isPtr && id.Name == "result" {
+			if ent.out != "" && isPtr && id.Name == ent.out {
 				// out-parameter: starts as an arbitrary point, returned at the end
 				d.declare(id.Name, k)
 				d.env[o] = &dloc{root: id.Name, kind: k}
@@ -2327,8 +2724,10 @@ func passDrivers(pkgs []*Pkg) (string, []string) {
 				d.reader = id.Name
 			}
 		}
-		if fd.Recv != nil {
-			addParam(fd.Recv.List[0].Names[0])
+		if fd.Recv != nil && len(fd.Recv.List[0].Names) > 0 {
+			if k, _ := d.kindOf(p.info.Defs[fd.Recv.List[0].Names[0]].Type()); k != "" && k != "curve" {
+				addParam(fd.Recv.List[0].Names[0])
+			} // a receiver of another kind (the curve object) carries no data the subset can read: any use of it fails
 		}
 		for _, fld := range fd.Type.Params.List {
 			for _, nm := range fld.Names {
@@ -2336,11 +2735,9 @@ func passDrivers(pkgs []*Pkg) (string, []string) {
 			}
 		}
 		var outName string
-		if ent.key == "ScalarBaseMultNonConst" || ent.key == "ScalarMultNonConst" {
-			outName = "result"
-		}
+		outName = ent.out
 		tree := d.stmts(fd.Body.List, func() *dnode {
-			if outName != "" {
+			if outName != "" && ent.total {
 				return d.rt(outName)
 			}
 			if d.results.Len() == 0 {
@@ -2357,8 +2754,8 @@ func passDrivers(pkgs []*Pkg) (string, []string) {
 			body.WriteString(a + "\n")
 		}
 		rt := d.retType()
-		if outName != "" {
-			rt = "Jac"
+		if outName != "" && ent.total {
+			rt = d.stype[outName]
 		}
 		fmt.Fprintf(&body, "/-- %s (%s) -/\ndef %s %s %s : %s :=\n", ent.key, strings.TrimPrefix(p.pos(fd), p.dir+"/"), ent.lean, ent.extra, strings.Join(psig, " "), rt)
 		tree.print(&body, "  ")
